@@ -1,10 +1,31 @@
 #!/usr/bin/env python3
 """print the prompt for an independent seeding sub-agent for property <id> (it gets nothing from /verif)"""
 import json, sys
+import os, glob
 pid = sys.argv[1]; n = sys.argv[2] if len(sys.argv) > 2 else "3"
-tests = sys.argv[3] if len(sys.argv) > 3 else ""
+tests = ""
+rnd = sys.argv[3] if len(sys.argv) > 3 else ""      # e.g. "2": second round -> /tmp/seed2-cNN, excludes earlier seeds' ideas
 p = [json.loads(l) for l in open('/verif/properties.jsonl') if json.loads(l)['id'] == pid][0]
-wt = "/tmp/seed-%s" % pid.lower(); out = "/tmp/seed-%s-out" % pid.lower()
+wt = "/var/tmp/seed%s-%s" % (rnd, pid.lower()); out = "/var/tmp/seed%s-%s-out" % (rnd, pid.lower())
+prev = []
+for d in sorted(glob.glob("/verif/seeded/%s-*" % pid)):
+    try:
+        m = json.load(open(os.path.join(d, "meta.json")))
+        files = sorted(set(l[6:].strip() for l in open(os.path.join(d, "patch.diff")) if l.startswith("+++ b/")))
+        prev.append("- (%s) %s" % (", ".join(files), " ".join(str(m.get("breaks", "")).split())[:400]))
+    except Exception:
+        pass
+known = []
+kf = "/verif/known_findings/%s.json" % pid
+if os.path.exists(kf):
+    for k in json.load(open(kf)).get("known", []):
+        known.append("- " + " ".join(k["what"].split())[:300])
+extra = ""
+if prev:
+    extra += "\n\nChanges ALREADY produced by earlier rounds — yours must be different in kind (another mechanism, another file or another failure mode), not variations of these:\n" + "\n".join(prev)
+if known:
+    extra += "\n\nAlready-known deviations of the unchanged tree from this property (out of scope: do not seed a change whose only effect falls in one of these classes):\n" + "\n".join(known)
+extra += "\n\nTest isolation: other people run the same suites on this machine and the suites use fixed TCP ports and /tmp/serverN directories. Run every existing-test command inside a private namespace: `unshare -n -m sh -c 'ip link set lo up; mount -t tmpfs tmpfs /tmp; cd <dir> && go test -count=1 ./...'` (your worktree is under /var/tmp so it stays visible). Run only the tests of the modules your change touches (plus `distsys` if you touch the runtime). Keep CPU use modest: no `-count` above 5, no parallel fan-out."
 print(f"""You are testing how well a verification suite detects realistic bugs. You work ONLY in the scratch git worktree {wt} (a checkout of DistCompiler/pgo: PGo, a Scala compiler from Modular PlusCal to Go, plus the Go `distsys` runtime and generated systems under systems/). Do not read or write anything under /verif or /repo. Environment: no network. Go 1.24. For the `distsys` module use `export GOFLAGS=-mod=mod GOPROXY=off GOWORK=off`; for modules under systems/ and pgo/test/files/ use workspace mode instead (`unset GOFLAGS GOWORK; export GOPROXY=off`, the go.work at the worktree root links them to ./distsys). Some existing tests use fixed TCP ports and other people's test runs on this machine may hold them for a while ("address already in use"): retry later rather than concluding anything from that. Do NOT run the tests of systems/raftres (not part of the project's passing baseline; they time out on a clean checkout) and run raftkvs tests only if your change touches raftkvs.
 
 The semantic property under test ({pid} — {p['title']}):
@@ -17,4 +38,4 @@ Anchored in: {', '.join(p['anchors']['files'])}. Mechanisms meant to make it hol
 
 Produce {n} different, independent changes to the project's NON-TEST source (Go runtime, generated Go of the systems, or both), each of which BREAKS this property while the project still compiles and its existing tests still pass ({tests or 'run the Go tests of every module you touch and of the modules that depend on the code you touch; `cd distsys && go test -count=1 ./...` always'}). Each change must need something SPECIFIC to manifest — a particular interleaving, a crash or fault at a particular point, a multi-step sequence of operations, an unusual input, or two cooperating sites that each look fine alone — not something ordinary use exposes at once. Make them look like plausible developer mistakes, refactorings or "optimisations", not sabotage, and make them different in kind from each other (touch different mechanisms of the property).
 
-For each change i create {out}/<i>/ containing: `patch.diff` (`git diff` of that change alone, relative to the worktree root, applying cleanly with `git apply` on a clean checkout of the worktree's HEAD), a demonstration `demo_test.go` (a Go test that FAILS with the change applied and PASSES without it; header comment: where to place it, how to run it; if the failure is probabilistic make it fail with high probability by repetition), and `meta.json` with keys "property": "{pid}", "breaks" (one sentence: which part of the property fails), "needs" (what specific circumstance is needed to manifest), "ran" (commands you ran and outcomes: existing tests pass with the patch; demo fails with / passes without). Reset the worktree (`git checkout -- . && git clean -fd`) between changes and at the end. NEVER use `git stash` (the stash is shared with other people's worktrees of the same repository): save work with `git diff > file`, restore with `git apply`. Verify each change fully before reporting; drop a change you cannot demonstrate. Final message: one line per change.""")
+For each change i create {out}/<i>/ containing: `patch.diff` (`git diff` of that change alone, relative to the worktree root, applying cleanly with `git apply` on a clean checkout of the worktree's HEAD), a demonstration `demo_test.go` (a Go test that FAILS with the change applied and PASSES without it; header comment: where to place it, how to run it; if the failure is probabilistic make it fail with high probability by repetition), and `meta.json` with keys "property": "{pid}", "breaks" (one sentence: which part of the property fails), "needs" (what specific circumstance is needed to manifest), "ran" (commands you ran and outcomes: existing tests pass with the patch; demo fails with / passes without). Reset the worktree (`git checkout -- . && git clean -fd`) between changes and at the end. NEVER use `git stash` (the stash is shared with other people's worktrees of the same repository): save work with `git diff > file`, restore with `git apply`. Verify each change fully before reporting; drop a change you cannot demonstrate. Final message: one line per change.""" + extra)
